@@ -156,6 +156,13 @@ def p_rexpr(node):
         return ("V", ("O", False, 2))
     if isinstance(node, ast.Name) and node.id[0] == "v" and node.id[1:].isdigit():
         return ("X", int(node.id[1:]))
+    if (isinstance(node, ast.Call) and isinstance(node.func, ast.Name) and node.func.id == "bool"
+            and len(node.args) == 1 and not node.keywords):
+        # `bool(<test>)` (emitted by fix_if_return / fix_if_assign since 4486780) is read as `not not <test>`:
+        # one truth test of the operand, result True/False (RulesFlowModel.TBool).  Value positions only; the
+        # printer never emits it, so the round trip of generated programs is unaffected.
+        t = p_test(node.args[0])
+        return ("V", ("B", t[1])) if t[0] == "K" else ("T", ("N", ("N", t)))
     t = p_test(node)
     return ("V", ("B", t[1])) if t[0] == "K" else ("T", t)
 
